@@ -22,6 +22,7 @@ import (
 	"os"
 	"strconv"
 	"strings"
+	"time"
 
 	"github.com/chrislusf/seaweedfs/weed/storage"
 	"github.com/chrislusf/seaweedfs/weed/storage/backend"
@@ -358,6 +359,14 @@ func genNeedle(r *hx.Rng, flags byte, wf bool) ndl {
 	return x
 }
 
+var t0 = time.Now()
+
+func mark(s string) {
+	if os.Getenv("C02_TIMES") != "" {
+		fmt.Fprintln(os.Stderr, "TIME", s, time.Since(t0))
+	}
+}
+
 func main() {
 	a := hx.ParseArgs()
 	tr = hx.NewTrace(a.Out)
@@ -388,6 +397,7 @@ func main() {
 			doSizes(int32(r.U64())>>uint(r.Intn(31)), ver)
 		}
 	}
+	mark("sizes")
 	// ---- CRC
 	doCrc([]byte("123456789"))
 	doCrc(nil)
@@ -430,6 +440,7 @@ func main() {
 		}
 		doScan(int64(len(sb)), true)
 	}
+	mark("combos")
 	// ---- needles outside the documented domain (the model must still reproduce the bytes)
 	for ver := 2; ver <= 3; ver++ {
 		for i := 0; i < a.N(40); i++ {
@@ -441,9 +452,12 @@ func main() {
 				doRd(off, ns)
 			}
 			doApp(genNeedle(r, byte(r.U64()), true))
-			doScan(int64(len(sb)), true)
+			// headers only: after a mis-sized record the scanner reads garbage headers, and with bodies it
+			// would allocate whatever size they claim (up to 2 GiB) before reading
+			doScan(int64(len(sb)), false)
 		}
 	}
+	mark("nonwf")
 	// ---- torn tails and malformed headers: truncate inside the last record at every position / append garbage; scan
 	for ver := 2; ver <= 3; ver++ {
 		for i := 0; i < a.N(12); i++ {
@@ -478,11 +492,12 @@ func main() {
 					doScan(int64(len(sb)), false)
 					// a new record appended after a torn tail starts at the next 8-byte boundary
 					doApp(genNeedle(r, byte(r.U64()), true))
-					doScan(int64(len(sb)), true)
+					doScan(int64(len(sb)), false)
 					os.WriteFile(curPath, full[:p], 0644)
 				}
 			}
 		}
+		mark("torn")
 		for i := 0; i < a.N(30); i++ {
 			doReset(ver, sb)
 			doApp(genNeedle(r, byte(r.U64()), true))
@@ -490,11 +505,21 @@ func main() {
 			hdr := r.Bytes(16)
 			sz := uint32(r.Intn(200))
 			if r.Chance(1, 5) {
-				sz = uint32(r.U64()) >> 1 >> uint(r.Intn(31))
+				sz = uint32(r.U64()) >> 12 >> uint(r.Intn(20)) // at most 1 MiB: the scanner allocates the body before reading it
 			}
 			hdr[12], hdr[13], hdr[14], hdr[15] = byte(sz>>24), byte(sz>>16), byte(sz>>8), byte(sz)
 			doRaw(hdr)
-			doRaw(r.Bytes(r.Intn(260)))
+			// at most the claimed body: what follows a complete garbage body would be read as further headers,
+			// and the scanner allocates whatever size they claim (up to 2 GiB) before reading
+			bl := int(needle.NeedleBodyLength(types.Size(sz), curVer))
+			tail := r.Intn(bl + 1)
+			if r.Chance(1, 3) {
+				tail = bl
+			}
+			if tail > 400 {
+				tail = r.Intn(400)
+			}
+			doRaw(r.Bytes(tail))
 			doScan(int64(len(sb)), true)
 			doScan(int64(len(sb)), false)
 			off := fileSize()
@@ -502,6 +527,7 @@ func main() {
 			doRd(recs[0].off+needle.GetActualSize(types.Size(recs[0].size), curVer), int32(sz))
 		}
 	}
+	mark("malformed")
 	// ---- corruption: flip every single bit of sampled records
 	nflip := 50
 	if a.Thorough() {
